@@ -50,6 +50,54 @@ class Budget(RuleAnalysis):
                 for it in n.items:
                     if isinstance(it.context_expr, ast.Call) and _cname(it.context_expr) == "ElapsedTime" and isinstance(it.optional_vars, ast.Name):
                         self.timers.add(it.optional_vars.id)
+                    # `timer = ElapsedTime()` ... `with timer:` (the context manager returns itself)
+                    if isinstance(it.context_expr, ast.Name) and it.optional_vars is None:
+                        for a in own_nodes(fn.node):
+                            if isinstance(a, (ast.Assign, ast.AnnAssign)) and isinstance(getattr(a, "value", None), ast.Call) and _cname(a.value) == "ElapsedTime" \
+                                    and any(isinstance(t, ast.Name) and t.id == it.context_expr.id for t in (a.targets if isinstance(a, ast.Assign) else [a.target])):
+                                self.timers.add(it.context_expr.id)
+        # successors: locals that take over the remaining budget (`rest = timer.recompute_timeout(timeout)`, `with lock_with_timeout(l, timeout) as rest`)
+        self.family = {self.var}
+        self.successor_at: dict[str, int] = {}
+        def derived(v) -> bool:
+            """v evaluates to (a fresh reading of) the remaining budget: a family member itself, a re-computation from one, a clamp of one"""
+            if isinstance(v, ast.Name):
+                return v.id in self.family
+            if isinstance(v, ast.Call) and _cname(v) in ("recompute_timeout", "max", "min", "validate_timeout_delay", "float"):
+                return any(self._mentions(a) for a in v.args)
+            return False
+
+        changed = True
+        while changed:
+            changed = False
+            binds: dict[str, list] = {}
+            for n in own_nodes(fn.node):
+                if isinstance(n, (ast.Assign, ast.AnnAssign)) and getattr(n, "value", None) is not None:
+                    t0 = n.targets[0] if isinstance(n, ast.Assign) else n.target
+                    if isinstance(t0, ast.Name):
+                        binds.setdefault(t0.id, []).append((n, derived(n.value) and not isinstance(n.value, ast.Name), derived(n.value)))
+                if isinstance(n, ast.With):
+                    for it in n.items:
+                        if isinstance(it.context_expr, ast.Call) and _cname(it.context_expr) == "lock_with_timeout" and isinstance(it.optional_vars, ast.Name):
+                            ok_ = any(self._mentions(a) for a in it.context_expr.args)
+                            binds.setdefault(it.optional_vars.id, []).append((n, ok_, ok_))
+            for name, bl in binds.items():
+                if name in self.family:
+                    continue
+                # every binding is budget-derived and at least one is a real hand-over (re-computation / `as`), not only a copy
+                if all(d for _, _, d in bl) and any(h for _, h, _ in bl):
+                    self.family.add(name)
+                    self.aliases.discard(name)
+                    self.successor_at[name] = min(n.lineno for n, h, _ in bl if h)
+                    changed = True
+        # an older member of the family read after a successor took over holds an out-of-date value
+        for name, line in self.successor_at.items():
+            older = self.family - {name} - {k for k, l_ in self.successor_at.items() if l_ > line}
+            for n in own_nodes(fn.node):
+                if isinstance(n, ast.Call) and _cname(n) in BLOCKING and getattr(n, "lineno", 0) > line:
+                    for a in list(n.args) + [k.value for k in n.keywords]:
+                        if isinstance(a, ast.Name) and a.id in older and a.id != name:
+                            self.viol.append(("C11.thread", n, f"`{a.id}` is handed to `{_cname(n)}()` although the remaining budget now lives in `{name}`: the time already spent is ignored"))
         return [("fresh", frozenset(), frozenset())]
 
     def may_raise(self, node, fact):
@@ -67,8 +115,9 @@ class Budget(RuleAnalysis):
     def _mentions(self, e) -> bool:
         if e is None:
             return False
+        fam = getattr(self, "family", {self.var})
         for x in ast.walk(e):
-            if (isinstance(x, ast.Name) and (x.id == self.var or x.id in self.aliases)) or (isinstance(x, ast.Attribute) and dotted(x) == self.var):
+            if (isinstance(x, ast.Name) and (x.id in fam or x.id in self.aliases)) or (isinstance(x, ast.Attribute) and dotted(x) == self.var):
                 return True
         return False
 
@@ -78,10 +127,12 @@ class Budget(RuleAnalysis):
             for it, _ in self.interp.ctx.with_stack:
                 if isinstance(it.optional_vars, ast.Name) and it.optional_vars.id in self.timers:
                     out.add(it.optional_vars.id)
+                elif it.optional_vars is None and isinstance(it.context_expr, ast.Name) and it.context_expr.id in self.timers:
+                    out.add(it.context_expr.id)
         return frozenset(out)
 
     def _is_target(self, t) -> bool:
-        return (isinstance(t, ast.Name) and t.id == self.var) or (isinstance(t, ast.Attribute) and dotted(t) == self.var)
+        return (isinstance(t, ast.Name) and t.id in getattr(self, "family", {self.var})) or (isinstance(t, ast.Attribute) and dotted(t) == self.var)
 
     def _use(self, node, state, what):
         if state == "stale":
@@ -236,13 +287,16 @@ class Budget(RuleAnalysis):
             inf = ("inf", frozenset(), flags)  # None = no deadline: nothing to account for
             return ([inf], [fact]) if nt[1] else ([fact], [inf])
         # `timeout > 0` false / `timeout <= 0` true / `timeout == 0` true  => zero
-        if isinstance(test, ast.Compare) and len(test.ops) == 1 and self._mentions(test.left) and isinstance(test.left, (ast.Name, ast.Attribute)):
-            c = test.comparators[0]
-            if isinstance(c, ast.Constant) and c.value == 0:
-                op = test.ops[0]
+        from ..norm import cmp_canon
+        cc = cmp_canon(None, test)
+        if cc is not None and len([k for k in cc[0] if k]) == 1 and cc[0].get("", 0) == 0:
+            (k, coef) = next(kv for kv in cc[0].items() if kv[0])
+            if k in getattr(self, "family", {self.var}) or k == self.var:
                 zero = ("zero", frozenset(), flags)
-                if isinstance(op, ast.Gt):
+                if cc[1] == ">" and coef == 1:      # budget > 0 (also written 0 < budget)
                     return [fact], [zero]
-                if isinstance(op, (ast.LtE, ast.Eq)):
+                if (cc[1] == ">=" and coef == -1) or cc[1] == "==":   # budget <= 0 / budget == 0
                     return [zero], [fact]
+                if cc[1] == "!=":
+                    return [fact], [zero]
         return [fact], [fact]
